@@ -301,6 +301,10 @@ fn with_objs<R>(plan: &SchedPlan, nthreads: usize, f: impl FnOnce(Vec<ThreadObjs
 }
 
 fn eval_caught(op: &Op, sh: &Shared, rs: &RunShared, tl: &mut ThreadObjs) -> (Outcome, Vec<Claim>) {
+    // the calling thread may hold a pending unpark token (left by a channel, an executor, its own
+    // check-then-park loop): per-thread std state that belongs to the caller and that no library call
+    // may depend on
+    std::thread::current().unpark();
     match catch_unwind(AssertUnwindSafe(|| eval(op, sh, rs, tl))) {
         Ok(o) => (Outcome::Image(o.image), o.claims),
         Err(e) => {
@@ -1106,9 +1110,9 @@ fn ctxsel(r: &mut Rng, c: &GenCfg) -> usize {
 const FAMS: &[Fam] = &[
     Fam { name: "fields", cost: 60, gen: |r, _| Op::new(*r.pick(&["fq_ops", "fr_ops", "fq2_ops", "fq6_ops", "fq12_ops", "fields_lite"]), &[r.below(8), r.below(8)]) },
     Fam { name: "misc", cost: 40, gen: |r, _| match r.below(4) { 0 => Op::new("misc", &[r.below(8), r.below(100_000)]), 1 => Op::new("field_random", &[r.below(5), r.below(40)]), _ => Op::new("misc2", &[r.below(10), r.below(1000)]) } },
-    Fam { name: "h2f", cost: 30, gen: |r, _| Op::new("h2f", &[r.below(4), r.below(2), r.below(8), r.below(6), r.below(3), r.below(2)]) },
+    Fam { name: "h2f", cost: 30, gen: |r, _| Op::new("h2f", &[r.below(6), r.below(2), r.below(8), r.below(6), r.below(3), r.below(2)]) },
     Fam { name: "arith", cost: 10, gen: |r, _| gop("arith", &[r.below(12), r.below(12)], r) },
-    Fam { name: "mul", cost: 300, gen: |r, _| gop(["mul", "amul", "ymul"][r.below(3)], &[r.below(12), rk(r)], r) },
+    Fam { name: "mul", cost: 300, gen: |r, _| if r.chance(1, 5) { gop("mul_re", &[r.below(10), rk(r), r.below(4)], r) } else { gop(["mul", "amul", "ymul"][r.below(3)], &[r.below(12), rk(r)], r) } },
     Fam { name: "affine", cost: 30, gen: |r, c| if r.chance(1, 2) { gop("affine", &[r.below(12)], r) } else { gop("batchnorm", &[r.below(12), if !c.no_big && r.chance(1, 8) { 6 + r.below(5) } else { r.below(6) }], r) } },
     Fam { name: "random", cost: 400, gen: |r, _| gop("random", &[r.below(50)], r) },
     Fam { name: "wnaf_bs", cost: 350, gen: |r, c| gop("wnaf_bs", &[ctxsel(r, c), r.below(10), r.below(if c.focus == "wnaf" { 14 } else { 9 }), rk(r)], r) },
